@@ -1098,3 +1098,5 @@ F("U38", "C12", NS, "    p_value2 = util.Igamc(2**(m - 3), max(0.0, d2_psi) / 2)
 F("U39", "C12", NS, "  if abs(pi - 0.5) >= 2 / math.sqrt(n):\n    return 0.0\n  v_obs", "  v_obs", "R-C12-DOMAIN", "the defect itself: no prerequisite, division by pi (1 - pi) = 0 on constant strings")
 T("U40", "C12", NS, "    p_value2 = util.Igamc(2**(m - 3), max(0.0, d2_psi) / 2)", "    if d2_psi < 0:\n      d2_psi = 0.0\n    p_value2 = util.Igamc(2**(m - 3), d2_psi / 2)", "clamp spelled as a branch")
 F("U41", "C12", NS, "  if abs(pi - 0.5) >= 2 / math.sqrt(n):\n    return 0.0", "  if abs(pi - 0.5) >= 1 / math.sqrt(n):\n    return 0.0", "R-C12-FORMULA", "prerequisite with the wrong threshold")
+F("U42", "C11", L + "ec_util.py", "      w = inverses[i]\n      if w is None:\n        res[i] = INFINITY\n      else:\n        wsqr = w * w % mod\n        x = p[0] * wsqr % mod\n        wcube", "      w = inverses[i]\n      if w is not None:\n        res[i] = INFINITY\n      else:\n        wsqr = w * w % mod\n        x = p[0] * wsqr % mod\n        wcube", "R-C11-FORMULA", "infinity test of the batched conversion inverted")
+T("U43", "C11", L + "ec_util.py", "      w = inverses[i]\n      if w is None:\n        res[i] = INFINITY\n      else:\n        wsqr = w * w % mod\n        x = p[0] * wsqr % mod\n        wcube = wsqr * w % mod\n        y = p[1] * wcube % mod\n        res[i] = (x, y)", "      w = inverses[i]\n      if w is not None:\n        wsqr = w * w % mod\n        x = p[0] * wsqr % mod\n        wcube = wsqr * w % mod\n        y = p[1] * wcube % mod\n        res[i] = (x, y)\n      else:\n        res[i] = INFINITY", "branches swapped with the test")
